@@ -145,6 +145,11 @@ def specs(opts, prop="C13"):
         sc = [(T, E) for T in ("i8", "u8") for E in (-8, -3, -1, 0, 1, 3, 8)] + [("i16", -4), ("u16", -8), ("i16", 3)]
     for (T, E) in sc:
         out.append(("scaled", T, E))
+    if prop == "C13":
+        out.append(("positive", 6, 12, -99, 99) if tier == "quick" else ("positive", 19, 26, -99, 99))
+    for (T, E, SG) in ([("i8", 12, "i16"), ("u8", 9, "i16"), ("i8", -12, "i16")] if tier == "quick" else
+                       [(T, E, "i16") for T in ("i8", "u8") for E in (-16, -12, -5, 1, 5, 9, 12, 16)] + [("i8", 24, "i32"), ("u8", -24, "i32")]):
+        out.append(("descale", T, E, SG))
     return out
 
 
@@ -156,6 +161,10 @@ def build(opts, prop):
             ks.append(mk_int(n, s[1], s[2], prop, symbolic_base=s[3]))
         elif s[0] == "scaled":
             ks.append(mk_scaled(n, s[1], s[2], prop))
+        elif s[0] == "descale":
+            ks.append(mk_descale(n, prop, *s[1:]))
+        elif s[0] == "positive":
+            ks.append(mk_positive(n, prop, *s[1:]))
         else:
             ks.append(mk_static(n, s[1], prop))
     return ks
@@ -163,6 +172,97 @@ def build(opts, prop):
 
 def kernels(opts):
     return build(opts, "C13")
+
+
+def mk_descale(name, prop, T, E, SG="i64"):
+    """first stage of every scaled_integer to_chars call: cnl::_impl::descale<int64, 10>(rep, power<E>) rewrites
+    rep * 2^E as significand * 10^exponent.  C13 needs it to terminate for every rep and every E in [-70,70] (the loop
+    runs at most |E| halving/doubling steps plus at most ~|E|/3 + 20 rescaling steps); C14 needs the rewritten value to
+    be the same number (or, once the 64-bit significand is exhausted, a truncation of it)."""
+    args = [("v", T), Arg("out", "i64", "arr", n=2, out=True, init="uninit")]
+    body = ("    auto d = cnl::_impl::descale<%s, 10>(v, cnl::power<%d>{});\n"
+            "    out[0] = d.significand; out[1] = d.exponent;\n    return 0;") % (cpp(SG), E)
+
+    def pre(env):
+        return env.a["v"] > tmin(T) if signed(T) else True
+
+    def claims(env, path):
+        if path.kind != "RET":
+            return [("unexpected-outcome", False)]
+        if prop == "C13":
+            return []
+        v = env.a["v"]
+        sig, e10 = env.out(path, "out")
+        cl = [("same-sign", X.And(X.Iff(sig < 0, v < 0), X.Iff(X.eq(sig, 0), X.eq(v, 0))))]
+        # |sig| * 10^e10 <= |v| * 2^E < (|sig| + 1) * 10^e10, exact when no precision was dropped; e10 ladder
+        A, S = X.absv(v), X.absv(sig)
+        le, near = False, False
+        for k in range(-(abs(E) + 2), abs(E) // 3 + 5):
+            if E >= 0:
+                lhs, rhs = (S * 10 ** k, A * 2 ** E) if k >= 0 else (S, A * 2 ** E * 10 ** (-k))
+                unit = 10 ** k if k >= 0 else 1
+            else:
+                lhs, rhs = (S * 10 ** k * 2 ** (-E), A) if k >= 0 else (S * 2 ** (-E), A * 10 ** (-k))
+                unit = (10 ** k if k >= 0 else 1) * 2 ** (-E)
+            le = X.Or(le, X.And(X.eq(e10, k), lhs <= rhs))
+            near = X.Or(near, X.And(X.eq(e10, k), rhs - lhs < unit))
+        # (how close the truncated significand stays is an instantiation-specific precision limit, not claimed here)
+        cl += [("never-exceeds-true-magnitude", le)]
+        return cl
+    return Kernel(name, args, "i32", body, mode="bv", W=64 + 8 if prop == "C13" else 40 + abs(E) + 4 * (abs(E) + 8), pre=pre, claims=claims,
+                  unwind=abs(E) + abs(E) // 3 + 40, max_paths=4000, timeout=60, terminates=True,
+                  desc="descale<%s,10>(%s, power<%d>)" % (SG, T, E), tags={"family": "descale", "T": T, "E": E, "SG": SG})
+
+
+def mk_positive(name, prop, LD, N, elo, ehi):
+    """unit-level kernel: the layout stage shared by every scaled_integer to_chars call,
+    cnl::_impl::to_chars_positive(first, last, significand digits, decimal exponent), with a symbolic digit string of
+    symbolic length 1..LD, a symbolic decimal exponent and a symbolic buffer length -- this covers every binary
+    exponent in [-70,70] at once as far as buffer handling goes (descale only chooses the digits and the exponent)"""
+    args = [Arg("dg", "u8", "buf", n=LD + 1), ("nd", "u8"), ("e", "i32"), ("n", "u8"),
+            Arg("buf", "u8", "buf", n=N, out=True), Arg("out", "i32", "arr", n=2, out=True, init="uninit")]
+    body = ("    char* p = reinterpret_cast<char*>(buf);\n"
+            "    std::string_view sv(reinterpret_cast<char const*>(dg), nd);\n"
+            "    auto r = cnl::_impl::to_chars_positive(p, p + n, sv, e);\n"
+            "    out[0] = static_cast<int>(r.ptr - p); out[1] = static_cast<int>(r.ec);\n    return 0;")
+
+    def pre(env):
+        dg, nd, e, n = env.a["dg"], env.a["nd"], env.a["e"], env.a["n"]
+        c = [nd >= 1, nd <= LD, e >= elo, e <= ehi, n <= N, X.ne(dg[0], 48)]
+        for i in range(LD + 1):
+            # what to_chars_static hands over: decimal digits, then NUL padding
+            c.append(X.ite(nd > i, X.And(dg[i] >= 48, dg[i] <= 57), X.eq(dg[i], 0)))
+        return X.And(*c)
+
+    def claims(env, path):
+        if path.kind != "RET":
+            return [("unexpected-outcome", False)]
+        n = env.a["n"]
+        p_off, ec = env.out(path, "out")
+        after = env.out(path, "buf")
+        before = env.a["buf"]
+        ok = X.eq(ec, 0)
+        cl = [("status-is-success-or-value_too_large", X.Or(ok, X.eq(ec, EVALUE_TOO_LARGE))),
+              ("success-pointer-range", X.Implies(ok, X.And(p_off > 0, p_off <= n))),
+              ("failure-pointer-is-last", X.Implies(X.Not(ok), X.eq(p_off, n)))]
+        for i in range(N):
+            cl.append(("byte%d-unchanged-outside-written-range" % i,
+                       X.Implies(X.Or(n <= i, X.And(ok, p_off <= i)), X.eq(after[i], before[i]))))
+        return cl
+    rngv = random.Random("c13-positive-vectors")
+    vecs = []
+    for _ in range(60):
+        nd = rngv.randint(1, LD)
+        ds = [rngv.randint(49, 57)] + [rngv.randint(48, 57) for _ in range(nd - 1)]
+        v = {"nd": nd, "e": rngv.choice([0, -1, 1, -nd, -nd - 3, 5, -8, 12, -64, 99, -99, rngv.randint(elo, ehi)]), "n": rngv.randint(0, N)}
+        for i in range(LD + 1):
+            v["dg_%d" % i] = ds[i] if i < nd else 0
+        for i in range(N):
+            v["buf_%d" % i] = rngv.randint(0, 255)
+        vecs.append(v)
+    return Kernel(name, args, "i32", body, mode="bv", W=48, pre=pre, claims=claims, unwind=N + LD + 8, max_paths=60000,
+                  vectors=lambda rng: vecs, timeout=60, desc="to_chars_positive(digits<=%d, 10^e e in [%d,%d], buffer 0..%d)" % (LD, elo, ehi, N),
+                  tags={"family": "positive", "LD": LD})
 
 
 def mk_scaled(name, T, E, prop, N=12):
